@@ -3,6 +3,7 @@ package main
 // Certificates, keys, victim configurations.
 
 import (
+	"bytes"
 	"crypto/rand"
 	"crypto/x509/pkix"
 	"encoding/pem"
@@ -26,6 +27,8 @@ type environ struct {
 	// made once per process: an untrusted SM2 CA and its certificates, an unrelated key
 	uCA, uSig, uEnc, uCli gmtls.Certificate
 	unrelated             *sm2.PrivateKey
+	// self-signed certificates that copy the RawSubject and SubjectKeyId of the trusted CA (SM2_CA.cer)
+	mSig, mEnc, mCli gmtls.Certificate
 }
 
 var E *environ
@@ -118,6 +121,23 @@ func loadEnv() {
 	e.uEnc = leaf("localhost", x509.KeyUsageKeyEncipherment|x509.KeyUsageDataEncipherment, nil)
 	e.uCli = leaf("c08 client", x509.KeyUsageDigitalSignature, []x509.ExtKeyUsage{x509.ExtKeyUsageClientAuth})
 	e.unrelated = newSM2Key()
+	if len(ca.SubjectKeyId) == 0 {
+		die("SM2_CA.cer carries no SubjectKeyId: the mimic_root attacks cannot be built")
+	}
+	mimic := func(ku x509.KeyUsage, eku []x509.ExtKeyUsage, dns []string) gmtls.Certificate {
+		k := newSM2Key()
+		t := &x509.Certificate{RawSubject: ca.RawSubject, SubjectKeyId: ca.SubjectKeyId, KeyUsage: ku, ExtKeyUsage: eku, DNSNames: dns}
+		der := makeCert(t, nil, &k.PublicKey, k)
+		c, _ := x509.ParseCertificate(der)
+		if !bytes.Equal(c.RawSubject, ca.RawSubject) || !bytes.Equal(c.RawIssuer, ca.RawSubject) || !bytes.Equal(c.SubjectKeyId, ca.SubjectKeyId) {
+			die("mimic certificate does not carry the CA's subject / key identifier")
+		}
+		return gmtls.Certificate{Certificate: [][]byte{der}, PrivateKey: k}
+	}
+	both := []x509.ExtKeyUsage{x509.ExtKeyUsageServerAuth, x509.ExtKeyUsageClientAuth}
+	e.mSig = mimic(x509.KeyUsageDigitalSignature|x509.KeyUsageContentCommitment, both, []string{"localhost"})
+	e.mEnc = mimic(x509.KeyUsageKeyEncipherment|x509.KeyUsageDataEncipherment, []x509.ExtKeyUsage{x509.ExtKeyUsageServerAuth}, []string{"localhost"})
+	e.mCli = mimic(x509.KeyUsageDigitalSignature, []x509.ExtKeyUsage{x509.ExtKeyUsageClientAuth}, nil)
 	E = e
 }
 
